@@ -7,7 +7,7 @@ CONSTANTS
   NSl = 2
   FpIdx = {3}
   MaxLen = 3
-  MaxId = 5
+  MaxId = 4
   Parts = {"err"}
 INVARIANTS TypeOK TableInjective NoReserved MsgRoundTrip ErrRoundTrip SingleStack
 PROPERTIES PackersIndependent RefusedRegChangesNothing WrapTransparent OthersUntouched
